@@ -167,8 +167,8 @@ def payload_of(t):
         x = look(t[1][1])
     else:
         return None
-    while is_call(x, "ok_or", "ok_or_else", "map_err") and x[2] and x[1].split("::")[0] in ("std", "core"):
-        x = look(x[2][0])
+    while (is_call(x, "ok_or", "ok_or_else", "map_err") or (is_call(x, "ok") and x[1].startswith(("std::result::Result", "core::result::Result")) and len(x[2]) == 1)) and x[2] and x[1].split("::")[0] in ("std", "core"):
+        x = look(x[2][0])      # `Result::ok` keeps the Ok payload as the Some payload
     return x
 
 
